@@ -25,8 +25,14 @@ LOCK = threading.Lock()
 
 
 # --------------------------------------------------------------------------- cfg files
-def mc_cfg(path, family, layout, cap0, hooks, depth, fixed, kd, invariants, deadlock=False):
-    lines = ["CONSTANTS", '  Keys = {"a", "b"}', '  Vals = {"v1", "v2"}', "  Kinds <- MCKinds", "  Caps <- MCCaps",
+def mc_cfg(path, family, layout, cap0, hooks, depth, fixed, kd, invariants, deadlock=False, opts=None):
+    """opts: {"keys": (KA, KB), "policy": "lru" | "victim" | "ttl", "budget": bytes} - key names, eviction policy and
+    byte budget of the memory layers (defaults: a / b, lru, no budget)."""
+    o = opts or {}
+    ka, kb = o.get("keys", ("a", "b"))
+    lines = ["CONSTANTS", f'  KA = "{ka}"', f'  KB = "{kb}"', f'  Keys = {{"{ka}", "{kb}"}}', '  Vals = {"v1", "v2"}',
+             "  Kinds <- MCKinds", "  Caps <- MCCaps", "  Budgets <- MCBudgets", "  Policies <- MCPolicies", "  Sizes <- MCSizes",
+             f'  Policy = "{o.get("policy", "lru")}"', f'  Budget = {o.get("budget", 0)}',
              f'  Layout = "{layout}"', f"  Cap0 = {cap0}", f"  Hooks = {'TRUE' if hooks else 'FALSE'}",
              f"  Fixed = {lib.tla_set(fixed)}", f"  D = {depth}", f'  Family = "{family}"', f"  KD = {lib.tla_set(kd)}",
              "INIT MCInit", "NEXT MCNext"]
@@ -38,7 +44,7 @@ def mc_cfg(path, family, layout, cap0, hooks, depth, fixed, kd, invariants, dead
 def t_cfg(ctx, kd):
     path = ctx.path(f"t_multilayer_{threading.get_ident()}.cfg")
     lines = ["CONSTANTS", f"  KnownDeviations = {lib.tla_set(kd)}", "  Keys = {}", "  Vals = {}", "  Kinds <- TKinds",
-             "  Caps <- TCaps", "  Hooks = FALSE", "  Fixed = {}", "INIT TInit", "NEXT TNext", "INVARIANT Done", "CHECK_DEADLOCK FALSE"]
+             "  Caps <- TCaps", "  Budgets <- TBudgets", "  Policies <- TPolicies", "  Sizes <- TSizes", "  Hooks = FALSE", "  Fixed = {}", "INIT TInit", "NEXT TNext", "INVARIANT Done", "CHECK_DEADLOCK FALSE"]
     open(path, "w").write("\n".join(lines) + "\n")
     return path
 
@@ -55,6 +61,12 @@ def design_checks(ctx, kd):
     jobs = []      # (name, cfg arguments, invariants, deadlock, expect_violation)
     for fam, lay, c0, hooks, d in plan:
         jobs.append((f"ideal_{fam}_{lay}{c0}", (fam, lay, c0, hooks, d, ALL_FINDINGS, []), ["ConformsIdeal", "Returns", "GhostSane"], True, False))
+    # the other configuration alphabets: byte budget with the ttl policy / a victim-choosing policy, odd key names
+    for nm, o in (("ttlpol", {"policy": "ttl", "budget": 40}), ("budget", {"policy": "victim", "budget": 40}),
+                  ("tmpkeys", {"keys": ("a.tmp", "b.TMP")})):
+        if nm == "ttlpol" or not ctx.quick:
+            jobs.append((f"ideal_{nm}", ("core", "md", 100 if "budget" in o else 1, False, 3, ALL_FINDINGS, [], o),
+                         ["ConformsIdeal", "Returns", "GhostSane"], True, False))
     # as-is: a get never returns (F12a): invariant Returns, and TLC's own deadlock check on the per-call sub-machine
     jobs.append(("asis_a", ("core", "md", 1, False, 4, [], []), ["Returns"], False, True))
     jobs.append(("asis_a2", ("core", "md", 1, False, 4, [], []), [], True, True))
@@ -66,7 +78,8 @@ def design_checks(ctx, kd):
     def one(job):
         name, a, invs, dl, expect = job
         cfg = ctx.path(f"design_{name}.cfg")
-        mc_cfg(cfg, *a, invs, deadlock=dl)
+        opts = a[7] if len(a) > 7 else None
+        mc_cfg(cfg, *a[:7], invs, deadlock=dl, opts=opts)
         return name, lib.tlc(ctx, MODULE_MC, cfg, workers=W, timeout=900, expect_violation=expect)
 
     with ThreadPoolExecutor(max_workers=PAR) as ex:
@@ -88,16 +101,22 @@ def design_checks(ctx, kd):
 
 
 # --------------------------------------------------------------------------- generate / run / judge
+POLICIES = ["lru", "lfu", "fifo", "random"]
+
+
 def add_strategy(lines, offset=0):
+    """Per program: promotion strategy, hooks implementation, and - where the model says "victim" (any policy that
+    chooses a victim; the model leaves the victim open) - a concrete eviction policy, all round-robin."""
     out = []
     for i, l in enumerate(lines):
+        l = l.replace('"victim"', '"%s"' % POLICIES[(i + offset) % len(POLICIES)])
         out.append('{"strategy":"%s","hookimpl":"%s",' % (STRATEGIES[(i + offset) % len(STRATEGIES)], ("md5", "ngdp")[(i // 3 + offset) % 2]) + l[1:])
     return out
 
 
-def generate(ctx, tag, family, layout, cap0, hooks, depth, fixed, kd):
+def generate(ctx, tag, family, layout, cap0, hooks, depth, fixed, kd, opts=None):
     cfg = ctx.path(f"mc_{tag}.cfg")
-    mc_cfg(cfg, family, layout, cap0, hooks, depth, fixed, kd, ["Conforms", "Emit"])
+    mc_cfg(cfg, family, layout, cap0, hooks, depth, fixed, kd, ["Conforms", "Emit"], opts=opts)
     progs = ctx.path(f"prog_{tag}.raw")
     hangs = ctx.path(f"hang_{tag}.raw")
     r = lib.tlc(ctx, MODULE_MC, cfg, workers=W, tagged_out={"PROGRAM": progs, "HANGPROG": hangs}, timeout=1500)
@@ -117,7 +136,8 @@ def program_of(evs):
     h = evs[0]
     ops = [{k: v for k, v in e.items() if k not in ("res", "rs", "obs", "seq", "msg", "now")} for e in evs[1:] if e.get("op") != "hang"]
     hung = [e["during"] for e in evs[1:] if e.get("op") == "hang"]
-    return {"kinds": h.get("kinds"), "caps": h.get("caps"), "hooks": h.get("hooks"), "keys": h.get("keys"),
+    return {"kinds": h.get("kinds"), "caps": h.get("caps"), "budgets": h.get("budgets"), "policies": h.get("policies"),
+            "hooks": h.get("hooks"), "keys": h.get("keys"),
             "strategy": h.get("strategy"), "hookimpl": h.get("hookimpl", "md5"), "ops": ops + hung}
 
 
@@ -234,9 +254,14 @@ def run(ctx):
         return replay(ctx, kd)
     design_checks(ctx, kd)
     rnd = random.Random(ctx.seed)
-    # (tag, family, layout, cap0, hooks, depth)
+    # (tag, family, layout, cap0, hooks, depth[, opts: key names / eviction policy / byte budget of the memory layers])
+    TTLPOL = {"policy": "ttl", "budget": 40}        # 40 bytes = two of the 17-byte values; max_entries out of the way
+    BUDGET = {"policy": "victim", "budget": 40}     # lru / lfu / fifo / random round-robin over the programs
+    TMPKEYS = {"keys": ("a.tmp", "b.TMP")}          # cache-key strings with the extension of the disk layer's temp files
     if ctx.quick:
-        plan = [("core_md1", "core", "md", 1, False, 4), ("core_mmd1", "core", "mmd", 1, False, 3), ("core_md2", "core", "md", 2, False, 3),
+        plan = [("core_md1", "core", "md", 1, False, 4), ("core_mmd1", "core", "mmd", 1, False, 3),
+                ("core_budget", "core", "md", 100, False, 3, BUDGET), ("core_ttlpol", "core", "md", 100, False, 3, TTLPOL),
+                ("core_tmpkeys", "core", "md", 1, False, 3, TMPKEYS),
                 ("layer_md1", "layer", "md", 1, False, 3), ("batch_md1", "batch", "md", 1, False, 3),
                 ("valid_md1", "valid", "md", 1, True, 4),
                 ("fault_md1", "fault", "md", 1, True, 3), ("ttl_md1", "ttl", "md", 1, False, 3)]
@@ -244,6 +269,11 @@ def run(ctx):
     else:
         plan = [("core_md1", "core", "md", 1, False, 5), ("core_mmd1", "core", "mmd", 1, False, 4), ("core_md2", "core", "md", 2, False, 4),
                 ("core_mm", "core", "mm", 1, False, 4),
+                ("core_budget", "core", "md", 100, False, 4, BUDGET), ("core_ttlpol", "core", "md", 100, False, 4, TTLPOL),
+                ("core_ttlpol_mm", "core", "mm", 100, False, 3, TTLPOL), ("layer_ttlpol", "layer", "md", 100, False, 3, TTLPOL),
+                ("layer_budget", "layer", "mmd", 100, False, 3, BUDGET),
+                ("core_tmpkeys", "core", "md", 1, False, 4, TMPKEYS), ("fault_tmpkeys", "fault", "md", 1, True, 3, TMPKEYS),
+                ("batch_tmpkeys", "batch", "md", 1, False, 3, TMPKEYS),
                 ("layer_mmd", "layer", "mmd", 1, False, 3), ("layer_md2", "layer", "md", 2, False, 4), ("batch_md1", "batch", "md", 1, False, 4),
                 ("batch_mmd2", "batch", "mmd", 2, False, 3),
                 ("valid_md1", "valid", "md", 1, True, 5), ("valid_off", "valid", "md", 1, False, 4), ("valid_mmd", "valid", "mmd", 1, True, 4),
@@ -253,15 +283,16 @@ def run(ctx):
     counts = {"total": 0, "distinct": 0}
 
     def pipeline(item):
-        n, (tag, fam, lay, c0, hooks, d) = item
-        progs, hangs = generate(ctx, tag, fam, lay, c0, hooks, d, fixed, kd)
+        n, (tag, fam, lay, c0, hooks, d) = item[0], item[1][:6]
+        opts = item[1][6] if len(item[1]) > 6 else None
+        progs, hangs = generate(ctx, tag, fam, lay, c0, hooks, d, fixed, kd, opts=opts)
         progs = add_strategy(progs, n)
         # programs of the ttl family mostly sleep: many at a time inside one driver process
         trace, info = run_programs(ctx, tag, progs, jobs=48 if fam == "ttl" else 1, shards=W)
         ls = lib.read_lines(trace)
         s_, e_ = lib.run_of_line(ls, len(ls) // 2 + 1)
         sample = {"source": f"MC_MultiLayer {tag}", "trace": [json.loads(x) for x in ls[s_:e_]]}
-        judge_trace(ctx, trace, f"MC_MultiLayer {tag} family={fam} layout={lay} cap0={c0} hooks={hooks} depth={d}", kd)
+        judge_trace(ctx, trace, f"MC_MultiLayer {tag} family={fam} layout={lay} cap0={c0} hooks={hooks} depth={d} opts={opts}", kd)
         if n == 0:
             selftest(ctx, trace, kd)
         os.remove(trace)
